@@ -101,6 +101,14 @@ func (c20) Exec(h []Ev) []Ev {
 				e["ttml_purpose"] = int(d.DecodeTTMLSubtitlePurpose())
 				e["is_dovi"] = d.IsDolbyVision()
 				e["dv_codec"] = d.DecodeDolbyVisionCodec("hvc1")
+				// the result is a function of the descriptor: whatever codec string the caller passes along
+				dvSame := true
+				for _, oc := range []string{"", "hev1.2.4.L153.B0", "dvhe.05.06", "dvhe.", "dvhe.08.09", "avc1.640028", "dvh1.05.01"} {
+					if d.DecodeDolbyVisionCodec(oc) != e["dv_codec"].(string) {
+						dvSame = false
+					}
+				}
+				e["dv_codec_same"] = dvSame
 				e["is_lang"] = d.IsIso639LanguageDescriptor()
 				e["is_maxbr"] = d.IsMaximumBitrateDescriptor()
 				e["is_ttml"] = d.IsTTMLSubtitlingDescriptor()
